@@ -159,16 +159,20 @@ def gen_hspace(rng):
                              disparity=disparity, bdspecs=bdspecs)
     hist = []
     nlev = int(rng.integers(1, 3)) if dim == 2 else int(rng.integers(1, 4))
+    base = {'dim': dim, 'p': p, 'n0': n0, 'disparity': 'inf' if disparity == np.inf else 1, 'bdspecs': bdspecs, 'truncate': hs.truncate}
+    # phase 0: the unrefined space is queried too (so that every later phase follows an earlier query on the same object)
+    yield hs, dict(base, refine_history=[], phase=0, note='one HSpace object: queried after every refine()')
     for lv in range(nlev):
-        cells = sorted(hs.hmesh.active[lv])
+        # refine on the finest level or (sometimes) again on a coarser one
+        lvr = lv if rng.integers(0, 4) > 0 else int(rng.integers(0, hs.numlevels))
+        cells = sorted(hs.hmesh.active[lvr])
         if not cells:
             break
         m = int(rng.integers(1, min(len(cells), 3) + 1))
         marked = [cells[i] for i in rng.permutation(len(cells))[:m]]
-        hs.refine({lv: marked})
-        hist.append({lv: [tuple(int(c) for c in cell) for cell in marked]})
-    return hs, {'dim': dim, 'p': p, 'n0': n0, 'disparity': 'inf' if disparity == np.inf else 1, 'bdspecs': bdspecs,
-                'truncate': hs.truncate, 'refine_history': hist}
+        hs.refine({lvr: marked})
+        hist.append({lvr: [tuple(int(c) for c in cell) for cell in marked]})
+        yield hs, dict(base, refine_history=[dict(h) for h in hist], phase=len(hist), note='one HSpace object: queried after every refine()')
 
 
 def run(ctx):
@@ -250,13 +254,21 @@ def run(ctx):
                 add(req[-1], ('gs', 'cython-direct', name, A, dense, b, x, indices, iterations, sweep, tag2, xi2, mode == 0, False))
 
     # ------------------------------------------------------------------ stream mg
-    nhs = 60 if quick else 600
-    for it in range(nhs):
-        try:
-            hs, desc = gen_hspace(rng)
-        except Exception as ex:      # refinement itself is C04's business
-            ctx.count('hspace generator: ' + type(ex).__name__); continue
+    nhs = 40 if quick else 400
+    def phases():
+        for it_ in range(nhs):
+            g_ = gen_hspace(rng)
+            while True:
+                try:
+                    hs_, desc_ = next(g_)
+                except StopIteration:
+                    break
+                except Exception as ex:      # refinement itself is C04's business
+                    ctx.count('hspace generator: ' + type(ex).__name__); break
+                yield it_, hs_, desc_
+    for it, hs, desc in phases():
         L = hs.numlevels
+        ctx.count('hspace phase=%d' % desc['phase'])
         ctx.count('hspace levels=%d' % L); ctx.count('hspace dim=%d' % desc['dim'])
         smooth_sets_case(ctx, hs, desc, add)
         if L < 2 or hs.numdofs > 30:
@@ -281,6 +293,9 @@ def run(ctx):
             if tagi != 'ok':
                 ctx.violation('mg:indices_to_smooth', 'indices_to_smooth(%r) raised %s' % (strategy, tagi), {'hspace': desc}, True); continue
             inds = [[int(i) for i in ii] for ii in inds]
+            if len(inds) != L or any(i >= sizes[lv] for lv in range(L) for i in inds[lv]):
+                ctx.violation('mg:indices_to_smooth', 'indices_to_smooth(%r) does not fit the current space (%d sets for %d levels / indices beyond the level sizes %s)' % (
+                    strategy, len(inds), L, sizes), {'hspace': desc, 'strategy': strategy, 'sets': inds}, True); continue
             if any(len(ii) == 0 for ii in inds[:1]) or (smoother == 'exact' and any(len(ii) == 0 for ii in inds)):
                 ctx.count('mg: skipped (empty smoothing set on a level that needs a solver)'); continue
             # condition numbers of every system that is factored
@@ -300,13 +315,15 @@ def run(ctx):
                 x0 = xstar.copy()
             else:
                 f = rng.integers(-3, 4, size=n).astype(float)
+                if dirichlet and rng.integers(0, 2) == 0:
+                    f[dirichlet] = rng.integers(-3, 4, size=len(dirichlet)).astype(float) * 64     # large entries on eliminated dofs
                 x0 = np.zeros(n) if start == 1 else np.where(np.isin(np.arange(n), nond), rng.integers(-2, 3, size=n).astype(float), 0.0)
             tag, x1, _ = guarded(lambda: solvers.local_mg_step(hs, A, f, Ps, [np.array(ii, dtype=int) for ii in inds], smoother, steps)(x0.copy()))
             head = 'mg %d %s %s %s %s %d %d' % (L, plist(sizes), fl(Ad), ' '.join(fl(P) for P in Pd),
                                              ' '.join(plist(ii) for ii in inds), SMOOTHERS.index(smoother), steps)
             add('%s %s %s' % (head, fl(x0), fl(f)),
                 ('mg', desc, strategy, smoother, steps, Ad, Pd, inds, x0, f, tag, x1, start == 0, nond, kappa))
-            ctx.case(('mg', it, rep), nontrivial=(L >= 2))
+            ctx.case(('mg', it, desc['phase'], rep), nontrivial=(L >= 2))
             ctx.count('mg smoother=' + smoother); ctx.count('mg strategy=' + strategy)
             # whole solve through solve_hmultigrid (glue + iterative_solve)
             if rep == 0 and smoother != 'exact':
@@ -316,7 +333,7 @@ def run(ctx):
                                                      ' '.join(plist(ii) for ii in inds), SMOOTHERS.index(smoother), 2)
                 add('%s %s %s %s %d' % (head2, fl(f), plist(nond), frac(tol), maxiter),
                     ('mgsolve', desc, strategy, smoother, Ad, f, nond, tol, maxiter, tag2, res2, kappa))
-                ctx.case(('mgsolve', it), nontrivial=True)
+                ctx.case(('mgsolve', it, desc['phase']), nontrivial=True)
 
     # ------------------------------------------------------------------ iterative_solve with a scalar affine step
     nis = 300 if quick else 4000
@@ -330,6 +347,36 @@ def run(ctx):
         add('isolve %s %s %s %s %d%s %s %d' % (frac(c), frac(d), frac(a), frac(f), hx, ' ' + frac(x0) if hx else '', frac(tol), maxiter),
             ('isolve', c, d, a, f, x0 if hx else None, tol, maxiter, tag, res, out))
         ctx.case(('isolve', it), nontrivial=(maxiter >= 2))
+
+    # ------------------------------------------------------------------ iterative_solve on vectors with active_dofs subsets
+    niv = 250 if quick else 3000
+    for it in range(niv):
+        n = int(rng.integers(2, 6))
+        Aop = rng.integers(-2, 3, size=(n, n)).astype(float) + 4 * np.eye(n)
+        w = float(rng.choice([0.25, 0.125, 0.5]))
+        Bm = np.eye(n) - w * Aop                    # Richardson step x <- x + w (f - A x)
+        mode = int(rng.integers(0, 3))
+        if mode == 0:
+            active = None
+        else:
+            ka = int(rng.integers(1, n))            # strict subset
+            active = sorted(int(i) for i in rng.permutation(n)[:ka])
+        f = rng.integers(-4, 5, size=n).astype(float)
+        if active is not None and rng.integers(0, 3) > 0:
+            inact = [i for i in range(n) if i not in active]
+            f[inact] = rng.integers(-4, 5, size=len(inact)).astype(float) * float(rng.choice([16, 256, 1024]))   # large entries on eliminated dofs
+        cvec = w * f
+        hx = bool(rng.integers(0, 3) == 0)
+        x0 = rng.integers(-2, 3, size=n).astype(float) if hx else None
+        tol = float(rng.choice([0.5, 0.25, 2.0 ** -4, 2.0 ** -8])); maxiter = int(rng.choice([1, 2, 3, 5, 8]))
+        aarg = None if active is None else (np.array(active) if rng.integers(0, 2) else list(active))
+        tag, res, out = guarded(lambda: solvers.iterative_solve(lambda x_: Bm @ x_ + cvec, Aop, f, x0=(None if x0 is None else x0.copy()),
+                                                                active_dofs=aarg, tol=tol, maxiter=maxiter))
+        add('isolvev %d %s %s %s %s %d%s %s %s %d' % (n, fl(Aop), fl(f), fl(Bm), fl(cvec), hx, ' ' + fl(x0) if hx else '',
+                                                    plist(range(n) if active is None else active), frac(tol), maxiter),
+            ('isolvev', Aop, f, Bm, cvec, x0, active, tol, maxiter, tag, res))
+        ctx.case(('isolvev', it), nontrivial=(active is not None))
+        ctx.count('isolvev active=' + ('all' if active is None else 'strict subset') + (', x0=None' if x0 is None else ', x0 given'))
 
     # ------------------------------------------------------------------ twogrid
     ntg = 150 if quick else 2000
@@ -400,7 +447,10 @@ def smooth_sets_case(ctx, hs, desc, add):
         ctx.case(('smooth', strategy, str(desc)), nontrivial=(L >= 2))
         ctx.count('smoothing-set cases')
         # oracle (model-free): new dofs of level lv minus Dirichlet are contained, no Dirichlet dof is
-        for lv in range(L):
+        if len(got) != L:
+            ctx.violation('smooth:' + strategy, 'indices_to_smooth(%r) returns %d level sets for a space with %d levels (sets of an earlier state of the object)' % (strategy, len(got), L),
+                          {'hspace': desc, 'strategy': strategy, 'sets': got}, True)
+        for lv in range(min(L, len(got))):
             off = sum(len(avail[lv][l]) for l in range(lv))
             newdofs = set(range(off, off + len(avail[lv][lv])))
             dird = set(int(i) for i in hs.dirichlet_dofs(lv))
@@ -565,6 +615,45 @@ def compare(ctx, r, g, m):
         if (float(np.ravel(x)[0]), k) != exp:
             verdict = 'returned (%r, %r), the stopping rule gives (%r, %r)' % (float(np.ravel(x)[0]), k, exp[0], exp[1])
         return ('isolve-corr', 'iterative_solve disagrees with the model' + ('; ' + verdict if verdict else ''), dict(call, implementation_result=want), verdict is not None)
+    if op == 'isolvev':
+        _, Aop, f, Bm, cvec, x0, active, tol, maxiter, tag, res = m
+        n = len(f)
+        act = list(range(n)) if active is None else active
+        call = {'call': 'solvers.iterative_solve(lambda x: B@x + c, A, f, x0, active_dofs=active, tol=tol, maxiter=maxiter)', 'A': Aop.tolist(),
+                'f': f.tolist(), 'B': Bm.tolist(), 'c': cvec.tolist(), 'x0': None if x0 is None else x0.tolist(), 'active_dofs': active,
+                'tol': tol, 'maxiter': maxiter, 'implementation': tag}
+        if tag != 'ok':
+            return ('isolve-corr', 'iterative_solve raised ' + tag, call, True)
+        x, k = res
+        kimpl = 'inf' if k == np.inf else str(int(k))
+        call['implementation_iterations'] = kimpl
+        xs, ks, ratios = g.split(' ; ')
+        xm = parse_rats(xs); rat = parse_rats(ratios)
+        t2 = Fr(float(tol)) ** 2
+        if any(v >= 0 and t2 > 0 and abs(v / t2 - 1) < Fr(1, 10 ** 6) for v in rat):
+            ctx.count('isolvev: skipped (borderline residual test)'); return None
+        # oracle: the property, recomputed independently in Fractions
+        Af = fexact(Aop); ff = fexact(f); xf = fexact(np.ravel(x)); x0f = fexact(x0) if x0 is not None else [Fr(0)] * n
+        rr = lambda xv: [ff[i] - sum((Af[i][j] * xv[j] for j in range(n)), Fr(0)) for i in act]
+        r0 = sum((v * v for v in rr(x0f)), Fr(0)); r1 = sum((v * v for v in rr(xf)), Fr(0))
+        verdict = None
+        if k != np.inf and k != 0 and r0 > 0 and not (r1 < t2 * r0 * (1 + Fr(1, 10 ** 6))):
+            verdict = 'returned k=%s although the residual on the active dofs was only reduced by %.3e (tol %.3e)' % (
+                kimpl, math.sqrt(float(r1 / r0)) if r0 else float('nan'), tol)
+        elif k != np.inf and k != 0 and r0 == 0:
+            verdict = 'the initial residual on the active dofs is zero (the start solves the system there) but %s iterations were made and reported as converged' % kimpl
+        elif k == 0 and r0 != 0:
+            verdict = 'returned k=0 although the initial residual on the active dofs is not zero'
+        problems = []
+        if kimpl != ks:
+            problems.append('iteration count (impl %s, model %s)' % (kimpl, ks))
+        scale = 1 + max(abs(v) for v in xm)
+        if not problems and not close(x, xm, scale * Fr(1, 10 ** 10)):
+            problems.append('iterate')
+        if not problems and verdict is None:
+            return None
+        return ('isolve-corr:active', 'iterative_solve with active_dofs ' + ('disagrees with the model on: ' + ', '.join(problems) if problems else '') +
+                ('; ' + verdict if verdict else ''), call, verdict is not None)
     if op == 'twogrid':
         _, name, A, Pm, f, u0, u0mode, tol, steps, maxiter, gsits, sweep, tag, res, out = m
         call = {'call': 'solvers.twogrid(A, f, P, GaussSeidelSmoother(gsits, sweep), u0, tol, smooth_steps, maxiter)', 'A': A.tolist(), 'P': Pm.tolist(),
